@@ -11,6 +11,7 @@ import (
 	"path/filepath"
 	"sort"
 	"strings"
+	"time"
 
 	"verif/harness/internal/core"
 	"verif/harness/internal/gitenv"
@@ -32,6 +33,13 @@ type World struct {
 	Now     int64             // "now" for date arithmetic (unix)
 	cur     string            // checked-out branch
 	Log     []string          // command log for replay files
+	Attr    string            // attribute line for *.bin (default: the line git lfs track writes)
+}
+
+// WorldOpts are concretisation-only dimensions: the spec says the answer does not depend on them.
+type WorldOpts struct {
+	Attr    string   // attributes for *.bin, e.g. "filter=lfs diff=lfs merge=lfs -text"
+	Ambient []string // "section.key=value" entries added to the user's global git config
 }
 
 func (w *World) Content(o string) []byte {
@@ -69,9 +77,19 @@ func (w *World) git(args ...string) (gitenv.Result, error) {
 // NewWorld builds remote + clone; tracking is configured in .git/info/attributes
 // so that trees contain only the scenario's paths.
 func NewWorld(root, binDir string, seed int64) (*World, error) {
+	return NewWorldOpts(root, binDir, seed, WorldOpts{})
+}
+
+func NewWorldOpts(root, binDir string, seed int64, o WorldOpts) (*World, error) {
 	env, err := gitenv.New(root, binDir)
 	if err != nil {
 		return nil, err
+	}
+	for _, kv := range o.Ambient {
+		i := strings.Index(kv, "=")
+		if r := env.Git(root, "config", "--global", kv[:i], kv[i+1:]); !r.OK() {
+			return nil, fmt.Errorf("ambient config %s: %s", kv, r.All())
+		}
 	}
 	srv, err := lfsserver.New()
 	if err != nil {
@@ -79,7 +97,10 @@ func NewWorld(root, binDir string, seed int64) (*World, error) {
 	}
 	srv.VerifyPut = true
 	w := &World{Env: env, Srv: srv, Root: root, Clone: filepath.Join(root, "clone"), Remote: filepath.Join(root, "remote.git"),
-		Seed: seed, Br: map[string]int{}, content: map[string][]byte{}, Now: 1700000000 + 86400*400, cur: ""}
+		Seed: seed, Br: map[string]int{}, content: map[string][]byte{}, Now: time.Now().Unix(), cur: "", Attr: o.Attr}
+	if w.Attr == "" {
+		w.Attr = "filter=lfs diff=lfs merge=lfs -text"
+	}
 	if err := env.InitRepo(w.Remote, true); err != nil {
 		return nil, err
 	}
@@ -107,7 +128,7 @@ func (w *World) SetAttributes(repo string) error {
 		gd = repo
 	}
 	os.MkdirAll(filepath.Join(gd, "info"), 0o755)
-	return os.WriteFile(filepath.Join(gd, "info", "attributes"), []byte("*.bin filter=lfs diff=lfs merge=lfs -text\n"), 0o644)
+	return os.WriteFile(filepath.Join(gd, "info", "attributes"), []byte("*.bin "+w.Attr+"\n"), 0o644)
 }
 
 func (w *World) Close() { w.Srv.Close() }
@@ -200,6 +221,53 @@ func (w *World) Commit(b, p, blob string, age int) error {
 	return nil
 }
 
+// CommitTree applies CommitTree(b, t, age): one commit setting every path of t.
+func (w *World) CommitTree(b string, tree map[string]string, age int) error {
+	_, exists := w.Br[b]
+	if !exists && b != "main" {
+		if err := w.checkout(b, true, "main"); err != nil {
+			return err
+		}
+	} else if exists {
+		if err := w.checkout(b, false, ""); err != nil {
+			return err
+		}
+	} else if w.cur != "main" {
+		w.cur = "main"
+	}
+	date := w.Now - int64(age)*86400 - 3600 + int64(len(w.Commits))*60
+	paths := []string{}
+	for p := range tree {
+		paths = append(paths, p)
+	}
+	sort.Strings(paths)
+	for _, p := range paths {
+		file := filepath.Join(w.Clone, PathFile(p))
+		if err := w.Env.WriteFile(file, w.Content(tree[p]), 0o644); err != nil {
+			return err
+		}
+		if _, err := w.git("add", "--", PathFile(p)); err != nil {
+			return err
+		}
+	}
+	r := w.Env.GitDate(w.Clone, date, "commit", "-q", "--allow-empty", "-m", fmt.Sprintf("c%d %s tree", len(w.Commits)+1, b))
+	if !r.OK() {
+		return fmt.Errorf("commit: %s", r.All())
+	}
+	sha, err := w.head()
+	if err != nil {
+		return err
+	}
+	w.Commits = append(w.Commits, sha)
+	w.Br[b] = len(w.Commits)
+	for _, p := range paths {
+		os.Remove(filepath.Join(w.Clone, PathFile(p)))
+		w.Env.RunIn(w.Clone, skipSmudge, nil, 0, "git", "checkout", "-q", "--", PathFile(p))
+	}
+	w.Env.Git(w.Clone, "update-index", "-q", "--refresh")
+	return nil
+}
+
 // Merge applies Merge(b, o): -X ours-like resolution is never needed because the
 // spec's merges are conflict-free by construction only when trees agree; to be
 // independent of content merges the merge commit's tree is built explicitly.
@@ -287,6 +355,52 @@ func (w *World) OtherPush(b string, oids []string) error {
 	}
 	_, err := w.Env.MustGit(w.Clone, "update-ref", "-d", "refs/remotes/origin/"+b)
 	return err
+}
+
+// Stage applies Stage(p, o): content written and added, not committed.
+func (w *World) Stage(p, o string) error {
+	file := filepath.Join(w.Clone, PathFile(p))
+	if err := w.Env.WriteFile(file, w.Content(o), 0o644); err != nil {
+		return err
+	}
+	_, err := w.git("add", "--", PathFile(p))
+	return err
+}
+
+// Stash applies Stash(p, o): edit p to content o, then git stash (work tree back to pointers).
+func (w *World) Stash(p, o string) error {
+	file := filepath.Join(w.Clone, PathFile(p))
+	if err := w.Env.WriteFile(file, w.Content(o), 0o644); err != nil {
+		return err
+	}
+	w.logf("GIT_LFS_SKIP_SMUDGE=1 git stash")
+	r := w.Env.RunIn(w.Clone, skipSmudge, nil, 0, "git", "stash", "-q")
+	if !r.OK() {
+		return fmt.Errorf("stash: %s", r.All())
+	}
+	if l := w.Env.Git(w.Clone, "stash", "list"); strings.TrimSpace(l.Stdout) == "" {
+		return fmt.Errorf("stash produced no entry: %s", r.All())
+	}
+	w.Env.Git(w.Clone, "update-index", "-q", "--refresh")
+	return nil
+}
+
+// Switch applies Switch(b).
+func (w *World) Switch(b string) error { return w.checkout(b, false, "") }
+
+// LocalOids lists the abstract oids that have a file in the clone's object store.
+func (w *World) LocalOids() []string {
+	out := []string{}
+	for rel := range gitenv.ListObjects(w.GitDir()) {
+		// objects outside the scenario's alphabet are by-products of git re-running the clean
+		// filter on ordinary ("raw") content at a tracked path (GitReclean, DESIGN 3.8): no
+		// commit, index entry or stash references them
+		if a := w.Abstract(filepath.Base(rel)); !strings.HasPrefix(a, "?") {
+			out = append(out, a)
+		}
+	}
+	sort.Strings(out)
+	return out
 }
 
 // ---- projections -----------------------------------------------------------
